@@ -1218,3 +1218,233 @@ func dependsOnValue(v, root ssa.Value, seen map[ssa.Value]bool, d int) bool {
 	}
 	return false
 }
+
+// sameFieldLoad: a and b are the same value or loads of the same field of the same object.
+func sameFieldLoad(a, b ssa.Value) bool {
+	if a == b {
+		return true
+	}
+	la, ok1 := a.(*ssa.UnOp)
+	lb, ok2 := b.(*ssa.UnOp)
+	if !ok1 || !ok2 || la.Op != token.MUL || lb.Op != token.MUL {
+		return false
+	}
+	fa, ok1 := la.X.(*ssa.FieldAddr)
+	fb, ok2 := lb.X.(*ssa.FieldAddr)
+	return ok1 && ok2 && fa.Field == fb.Field && (fa.X == fb.X || sameFieldLoad(fa.X, fb.X))
+}
+
+// shownTotalUnclamped (C05-R11): the 'accounting for' figure of the legend is the sum of the
+// flat values shown, whatever its relation to the total.  In package report the share handed
+// to measurement.Percentage as a function parameter is that parameter on every path: it is
+// never merged (a phi, min/max) with another value such as the total.  Clamped to 100% the
+// header stops matching the rows below it for diff and negative-value profiles.
+func (c *Check) shownTotalUnclamped() {
+	p := c.P
+	pct := p.Func("internal/measurement", "Percentage")
+	if pct == nil {
+		c.undecided("C05-R11", "anchor:Percentage", "", "measurement.Percentage not found")
+		return
+	}
+	n := 0
+	forAllPkgFuncs(p, "internal/report", func(f *ssa.Function) {
+		for _, b := range f.Blocks {
+			for _, ins := range b.Instrs {
+				call, ok := ins.(*ssa.Call)
+				if !ok || call.Call.StaticCallee() != pct || len(call.Call.Args) != 2 {
+					continue
+				}
+				a := call.Call.Args[0]
+				// which parameter of f is the share?
+				var par *ssa.Parameter
+				var via string
+				switch x := a.(type) {
+				case *ssa.Parameter:
+					par = x
+				case *ssa.Phi:
+					for _, e := range x.Edges {
+						if q, ok := e.(*ssa.Parameter); ok {
+							par, via = q, "a value that is the parameter on one path and "+describeValue(otherEdge(x, q))+" on another"
+						}
+					}
+				case *ssa.Call:
+					if bi, ok := x.Call.Value.(*ssa.Builtin); ok && (bi.Name() == "min" || bi.Name() == "max") {
+						for _, e := range x.Call.Args {
+							if q, ok := e.(*ssa.Parameter); ok {
+								par, via = q, bi.Name()+"() of the parameter and another value"
+							}
+						}
+					}
+				}
+				if par == nil {
+					continue
+				}
+				n++
+				key := fmt.Sprintf("shown-share:%s:%s", fnName(f), par.Name())
+				if via != "" {
+					c.bad("C05-R11", key, p.relFile(call.Pos()), fnName(f)+" prints the share of "+via+": the 'accounting for' figure is then not the sum of the flat values of the entries shown (a diff profile, where the shown sum can exceed the total, is reported as 100%)")
+					continue
+				}
+				// the parameter itself: no other use of it is merged with something else either
+				merged := ""
+				for _, r := range *par.Referrers() {
+					if ph, ok := r.(*ssa.Phi); ok {
+						merged = describeValue(otherEdge(ph, par))
+					}
+				}
+				if merged != "" {
+					c.bad("C05-R11", key, p.relFile(call.Pos()), fnName(f)+" replaces "+par.Name()+" by "+merged+" on some path before printing it: the 'accounting for' figure is then not the sum of the flat values shown")
+				} else {
+					c.ok("C05-R11", key, p.relFile(call.Pos()), "the share printed by "+fnName(f)+" is the sum it was given", "the first argument of measurement.Percentage is the parameter, and the parameter is merged with nothing")
+				}
+			}
+		}
+	})
+	if n == 0 {
+		c.ok("C05-R11", "shown-share:none", "", "no function of package report prints the share of a parameter", "nothing to check")
+	}
+}
+
+func otherEdge(ph *ssa.Phi, v ssa.Value) ssa.Value {
+	for _, e := range ph.Edges {
+		if e != v {
+			return e
+		}
+	}
+	return v
+}
+
+// absLike: h returns |x| of its only parameter.
+func absLike(h *ssa.Function) bool {
+	if h == nil {
+		return false
+	}
+	if h.String() == "math.Abs" {
+		return true
+	}
+	if len(h.Params) != 1 || len(h.Blocks) == 0 {
+		return false
+	}
+	neg, plain := false, false
+	for _, b := range h.Blocks {
+		ret, ok := b.Instrs[len(b.Instrs)-1].(*ssa.Return)
+		if !ok || len(ret.Results) != 1 {
+			continue
+		}
+		var look func(v ssa.Value, d int)
+		look = func(v ssa.Value, d int) {
+			switch x := v.(type) {
+			case *ssa.Parameter:
+				plain = true
+			case *ssa.UnOp:
+				if x.Op == token.SUB && x.X == ssa.Value(h.Params[0]) {
+					neg = true
+				}
+			case *ssa.Phi:
+				if d < 3 {
+					for _, e := range x.Edges {
+						look(e, d+1)
+					}
+				}
+			}
+		}
+		look(ret.Results[0], 0)
+	}
+	return neg && plain
+}
+
+// cutoffIsMagnitude (C05-R12): "entries whose absolute cum is below the node cutoff": the
+// cutoff is a magnitude too.  A product with Options.NodeFraction or Options.EdgeFraction is
+// used only through an absolute-value function: for a profile whose total is negative (a
+// diff against a larger base) a signed cutoff is negative, `cutoff > 0` is false and nothing
+// is trimmed at all.
+func (c *Check) cutoffIsMagnitude() {
+	p := c.P
+	n := 0
+	forAllPkgFuncs(p, "internal/report", func(f *ssa.Function) {
+		for _, b := range f.Blocks {
+			for _, ins := range b.Instrs {
+				mul, ok := ins.(*ssa.BinOp)
+				if !ok || mul.Op != token.MUL {
+					continue
+				}
+				frac := ""
+				for _, op := range []ssa.Value{mul.X, mul.Y} {
+					if ld, ok := op.(*ssa.UnOp); ok && ld.Op == token.MUL {
+						if fa, ok := ld.X.(*ssa.FieldAddr); ok {
+							if T, F := fieldOf(fa.X.Type(), fa.Field); T == "report.Options" && (F == "NodeFraction" || F == "EdgeFraction") {
+								frac = F
+							}
+						}
+					}
+				}
+				if frac == "" {
+					continue
+				}
+				n++
+				key := fmt.Sprintf("cutoff-magnitude:%s:%s", fnName(f), frac)
+				// follow the product through conversions; every other use must be an abs
+				bad := ""
+				work := []ssa.Value{mul}
+				seen := map[ssa.Value]bool{mul: true}
+				for len(work) > 0 && bad == "" {
+					v := work[0]
+					work = work[1:]
+					var inlineAbs []ssa.Instruction
+					for _, r := range *v.Referrers() {
+						switch x := r.(type) {
+						case *ssa.DebugRef:
+						case *ssa.Convert:
+							if !seen[x] {
+								seen[x] = true
+								work = append(work, x)
+							}
+						case *ssa.Call:
+							if !absLike(x.Call.StaticCallee()) {
+								bad = "passed to " + calleeShort(x)
+							}
+						case *ssa.BinOp:
+							if k, ok := constInt(x.Y); ok && k == 0 && (x.Op == token.LSS || x.Op == token.GEQ || x.Op == token.GTR || x.Op == token.LEQ) {
+								inlineAbs = append(inlineAbs, x)
+							} else if kf, ok := x.Y.(*ssa.Const); ok && kf.Value != nil && kf.Value.String() == "0" {
+								inlineAbs = append(inlineAbs, x)
+							} else {
+								bad = "used in " + x.Op.String()
+							}
+						case *ssa.UnOp:
+							if x.Op == token.SUB {
+								inlineAbs = append(inlineAbs, x)
+							} else {
+								bad = "used as is"
+							}
+						case *ssa.Phi:
+							inlineAbs = append(inlineAbs, x)
+						default:
+							bad = "used as is (" + p.relFile(r.Pos()) + ")"
+						}
+					}
+					// an inline abs needs its negation
+					if len(inlineAbs) > 0 {
+						hasNeg := false
+						for _, i := range inlineAbs {
+							if u, ok := i.(*ssa.UnOp); ok && u.Op == token.SUB {
+								hasNeg = true
+							}
+						}
+						if !hasNeg {
+							bad = "compared or merged without taking its absolute value"
+						}
+					}
+				}
+				if bad == "" {
+					c.ok("C05-R12", key, p.relFile(mul.Pos()), "the cutoff derived from "+frac+" is an absolute value", "the product is only used through an absolute-value function")
+				} else {
+					c.bad("C05-R12", key, p.relFile(mul.Pos()), fnName(f)+" uses total × "+frac+" with its sign ("+bad+"): when the total is negative (a diff against a larger base) the cutoff is negative, the `cutoff > 0` tests fail and no low-frequency entry or edge is removed")
+				}
+			}
+		}
+	})
+	if n == 0 {
+		c.ok("C05-R12", "cutoff-magnitude:none", "", "package report computes no cutoff from NodeFraction/EdgeFraction", "nothing to check")
+	}
+}
